@@ -89,7 +89,7 @@ func init() {
 		ID:     "C17",
 		Level:  "proof",
 		Funcs:  []string{"tcell.(*tScreen).encodeRune", "tcell.(*tScreen).CanDisplay"},
-		Custom: []func(*PropRun){c17AcsMaps, c17Charsets},
+		Custom: []func(*PropRun){c17AcsMaps, c17Charsets, c17WidePad},
 		Trusted: []string{"transform.Transformer.Transform writes only into dst and returns counts within bounds (assumed interface contract); which bytes a given charset encoder produces is not modelled",
 			"the encoder is deterministic, so encodeRune and CanDisplay see the same answer for the same rune (agreement of the two contracts rests on this)"},
 		Assume: []string{"a non-UTF-8 locale (t.encoder != nil)"},
